@@ -40,6 +40,8 @@ import (
 
 	"github.com/oasisprotocol/oasis-core/go/common/logging"
 
+	cmtcrypto "github.com/oasisprotocol/oasis-core/go/consensus/cometbft/crypto"
+
 	"verifharness/internal/coqout"
 	"verifharness/internal/muxdrv"
 	"verifharness/internal/prng"
@@ -87,6 +89,8 @@ type history struct {
 	g        *muxdrv.Genesis
 	reps     []*muxdrv.Replica
 	sanity   *muxdrv.Replica
+	outsider *muxdrv.Replica // a node that is NOT registered: its blocks have no proposer entity
+	outAddr  []byte
 	chain    *muxdrv.Chain
 	rng      *prng.R
 	senders  []sender
@@ -258,6 +262,14 @@ func newHistory(seed uint64, run int, sum *coqout.Summary, w *coqout.Writer) (*h
 		h.close()
 		return nil, err
 	}
+	oid := muxdrv.ObserverIdentity(g.Seed, 7)
+	h.outsider, err = muxdrv.NewReplica(g, muxdrv.ReplicaConfig{Name: "outsider", Identity: oid})
+	if err != nil {
+		h.close()
+		return nil, err
+	}
+	opk := oid.ConsensusSigner.Public()
+	h.outAddr = []byte(cmtcrypto.PublicKeyToCometBFT(&opk).Address())
 	h.chain = muxdrv.NewChain(g)
 	for _, v := range g.Validators {
 		h.senders = append(h.senders, sender{v.Entity, v.Entity.Address(), fmt.Sprintf("val%d", v.Index)})
@@ -279,6 +291,9 @@ func (h *history) close() {
 	}
 	if h.sanity != nil {
 		h.sanity.Close()
+	}
+	if h.outsider != nil {
+		h.outsider.Close()
 	}
 }
 
@@ -934,6 +949,9 @@ func (h *history) warmup() (*blockOut, error) {
 	h.sigTotal++ // updateEpochSigning of the first block: no votes
 	h.sum.Count("blocks", "first-block(S only)")
 	out := &blockOut{violations: checkDump(post.dump), burned: new(big.Int)}
+	if _, err := h.outsider.Replay(in, txs); err != nil {
+		return nil, err
+	}
 	if _, err := h.sanity.Replay(in, txs); err != nil {
 		out.violations = append(out.violations, "in-tree supplementarysanity / replay failed: "+err.Error())
 	}
@@ -978,7 +996,9 @@ func (h *history) block(blockNo int, total int) (*blockOut, error) {
 	if height > 24 {
 		evPct = 1 // slashing freezes validators and soon leaves none electable (the chain halts); keep long histories alive
 	}
-	if height > 3 && r.Chance(evPct) && os.Getenv("LEDGER_NOEVIDENCE") == "" {
+	// mock backend: below the base epoch there is no random beacon yet and a slash-triggered
+	// re-election cannot run (debug-backend artefact): no evidence before the first transition
+	if height > 3 && r.Chance(evPct) && os.Getenv("LEDGER_NOEVIDENCE") == "" && pre.dump.Epoch >= uint64(h.g.Doc.Beacon.Base) {
 		pv := h.chain.ValidatorsAt(height - 2)
 		tv := pv[r.Intn(len(pv))]
 		// prefer a validator whose entity has stake in debonding (slash must hit both pools)
@@ -994,7 +1014,16 @@ func (h *history) block(blockNo int, total int) (*blockOut, error) {
 		mis = append(mis, h.chain.DuplicateVote(tv.Address, tv.Power, height-2))
 		h.sum.Count("evidence", "duplicate-vote")
 	}
-	in := h.chain.NewBlock(h.g.Validators[pi].ConsAddr, votes, mis)
+	propRep, propAddr := h.reps[pi], h.g.Validators[pi].ConsAddr
+	if r.Chance(6) {
+		// a block proposed by a node the registry does not know: no proposer entity
+		// (fees.go: the proposer's share goes to the common pool; no proposer reward)
+		propRep, propAddr, pi = h.outsider, h.outAddr, -1
+		h.sum.Count("proposer", "unregistered")
+	} else {
+		h.sum.Count("proposer", "validator")
+	}
+	in := h.chain.NewBlock(propAddr, votes, mis)
 
 	ntx := r.Intn(9)
 	nonces := map[staking.Address]uint64{}
@@ -1021,14 +1050,14 @@ func (h *history) block(blockNo int, total int) (*blockOut, error) {
 		cand = append(cand, t.raw)
 		h.sum.Count("epoch_jump", fmt.Sprint(jump))
 	}
-	txs, err := h.reps[pi].Propose(in, cand)
+	txs, err := propRep.Propose(in, cand)
 	if err != nil {
 		return nil, fmt.Errorf("propose: %w", err)
 	}
 	if len(txs) == 0 {
 		// the multiplexer could not prepare a proposal (it recovered from an error inside
 		// BeginBlock/EndBlock): find out why by executing the block on another replica
-		_, rerr := h.reps[(pi+1)%4].Replay(in, cand)
+		_, rerr := h.reps[(pi+5)%4].Replay(in, cand)
 		if rerr != nil && strings.Contains(rerr.Error(), "failed to elect any validators") {
 			// no validator has enough stake left / all are frozen: the chain halts by
 			// design; not a ledger property. The history ends here.
@@ -1039,12 +1068,12 @@ func (h *history) block(blockNo int, total int) (*blockOut, error) {
 	if len(txs) != len(cand)+1 {
 		return nil, fmt.Errorf("proposal dropped transactions: %d of %d", len(txs)-1, len(cand))
 	}
-	res, err := h.reps[pi].Process(in, txs)
+	res, err := propRep.Process(in, txs)
 	if err != nil {
-		return nil, fmt.Errorf("replica %d height %d: %w", pi, height, err)
+		return nil, fmt.Errorf("proposer replica %d height %d: %w", pi, height, err)
 	}
-	for i, rep := range h.reps {
-		if i == pi {
+	for i, rep := range append(append([]*muxdrv.Replica{}, h.reps...), h.outsider) {
+		if rep == propRep {
 			continue
 		}
 		rr, err := rep.Replay(in, txs)
@@ -1175,7 +1204,9 @@ func (h *history) block(blockNo int, total int) (*blockOut, error) {
 	if nTake > nSlash {
 		out.violations = append(out.violations, fmt.Sprintf("height %d: %d TakeEscrow events but only %d slashes are due", height, nTake, nSlash))
 	}
-	if epochChanged {
+	// scheduler.go shouldElect: no election (and no election reward) while epoch == base epoch
+	// (the mock backend starts below the base epoch, so 0 -> 1 is a transition without election)
+	if epochChanged && epoch != uint64(h.g.Doc.Beacon.Base) {
 		// scheduler.go elect: every entity that got a validator elected, in address order
 		cv, err := h.reps[0].CurrentValidators(0)
 		if err != nil {
